@@ -26,7 +26,7 @@ META = dict(
          "dict), XarrayStream (time as dimension coordinate / as data variable / from a NetCDF-3 file path), NetcdfStream (in-memory Dataset / file path), QcConfig.run; Pandas/Xarray/Netcdf streams also with custom axis column names. Oracle per "
          "configured (context, stream, test): exactly one result whose subset mask equals starting<=t<ending and whose "
          "flags equal the real test function called directly on those rows with the context's parameters (the probe "
-         "Scale: 1500-row (thorough 2600) tables through every front end, in increasing and shuffled order; and an earlier run of the same configuration on another table of the same size in the same process. additionally checks the inp/tinp/zinp/lat/lon it received). non-trivial = the window excludes at least one row "
+         "additionally checks the inp/tinp/zinp/lat/lon it received). Scale: 1500-row (thorough 2600) tables through every front end, in increasing and shuffled order; and an earlier run of the same configuration on another table of the same size in the same process. non-trivial = the window excludes at least one row "
          "or the program has two contexts",
     bounds={"quick": {"rows": "1..4", "contexts": 2}, "thorough": {"rows": "0..7", "contexts": "2 (+ A,B,A)"}},
     not_judged=["region subsetting (documented as not implemented)", "tz-aware window strings against naive data",
